@@ -240,6 +240,11 @@ let handle (req : sexp) : sexp =
     let vl = List.map (fun x -> rd (atom x)) (lst vals) in
     let nop = (match atom op with "sum" -> NSum | "min" -> NMin | "max" -> NMax | "sum_square" -> NSumSquare | s -> failwith ("bad nanop " ^ s)) in
     A (pr (nan_reduce o nop vl (nat_of nt)))
+  | L [A "validate_lengths_and_indexes"; args] ->
+    let inputs = List.map (fun a -> match lst a with
+        | [ln; ix] -> (nat_of ln, (match atom ix with "_" -> None | s -> Some (nat_of_int (int_of_string s))))
+        | _ -> failwith "bad input") (lst args) in
+    A (if validate_lengths_and_indexes inputs then "ok" else "reject")
   | L (A op :: _) -> failwith ("unknown op " ^ op)
   | _ -> failwith "bad request"
 
